@@ -19,6 +19,9 @@ import (
 
 type c07Case struct {
 	M modelValue `json:"message"`
+	// Prior: a message of the same type (same dialect and header version) that the receiving handler parsed before -
+	// the service keeps one handler object per message type and connection
+	Prior *modelValue `json:"message_parsed_before_by_the_same_handler,omitempty"`
 }
 
 func genC07For(name string) func(t *rapid.T) c07Case {
@@ -30,7 +33,15 @@ func genC07(t *rapid.T) c07Case {
 	if only := os.Getenv("VERIF_ONLY_TYPE"); only != "" {
 		name = only
 	}
-	return c07Case{M: genModelValue(t, name)}
+	c := c07Case{M: genModelValue(t, name)}
+	if rapid.IntRange(0, 2).Draw(t, "with_prior") == 0 {
+		for i := 0; i < 4 && c.Prior == nil; i++ {
+			if p := genModelValue(t, name); p.Dialect == c.M.Dialect && p.V2019 == c.M.V2019 {
+				c.Prior = &p
+			}
+		}
+	}
+	return c
 }
 
 // known-finding classes of C07 (only applied while listed as open findings in known_findings.json):
@@ -116,6 +127,38 @@ func checkC07(c c07Case, _ *kit.Collector) kit.Result {
 	}
 	if err := kit.Safely(func() error { _ = v2.String(); return nil }); err != nil {
 		res.Err = kit.Fail("%s: String() of the parsed value: %v", c.M.Type, err)
+		return res
+	}
+	if c.Prior != nil {
+		pv, err := decodeModelValue(*c.Prior)
+		if err != nil {
+			res.Err = err
+			return res
+		}
+		c07Strip(pv)
+		pbody := pv.Encode()
+		pmsg, err := jtMsg(uint16(pv.Protocol()), c.M.V2019, exact(pbody))
+		if len(pbody) > 1023 || err != nil {
+			return res
+		}
+		v3 := newModel(c.M.Type, c.M.Dialect)
+		if err := v3.Parse(pmsg); err != nil {
+			return res // that message's own case
+		}
+		msg3, _ := jtMsg(uint16(v.Protocol()), c.M.V2019, exact(body))
+		if err := v3.Parse(msg3); err != nil {
+			res.Err = kit.Fail("%s: a handler that had parsed another %s before: Parse(Encode(v)) failed: %v; body=%x", c.M.Type, c.M.Type, err, head(body))
+			return res
+		}
+		if d := diff(want, v3); d != "" {
+			res.Err = kit.Fail("%s: a handler that had parsed another %s before: Parse(Encode(v)) != v at %s; body=%x earlier body=%x", c.M.Type, c.M.Type, d, head(body), head(pbody))
+			return res
+		}
+		if b3 := v3.Encode(); !bytes.Equal(b3, body) {
+			res.Err = kit.Fail("%s: a handler that had parsed another %s before re-encodes to %x, want %x", c.M.Type, c.M.Type, head(b3), head(body))
+			return res
+		}
+		res.Labels = append(res.Labels, "handler_reused")
 	}
 	return res
 }
